@@ -37,7 +37,7 @@ def count_sites(types, instrs, mult):
 
 
 # classes whose declaration offers no in-scope violation site (only unbounded / length-prefixed text under a 252 limit)
-NO_SITES = ("Named", "RangeReplyServerPacket", "TalkRequestClientPacket")
+NO_SITES = ("Named", "RangeReplyServerPacket", "TalkRequestClientPacket", "CaseWithChunk.CodeData2", "DirectNestedChunk")
 
 
 def jobs(tier):
